@@ -12,8 +12,9 @@ Open Scope N_scope.
 Scheme cstmt_m := Induction for cstmt Sort Prop
   with cblk_m := Induction for cblk Sort Prop
   with celse_m := Induction for celse Sort Prop
-  with ccases_m := Induction for ccases Sort Prop.
-Combined Scheme cstmt_mutind from cstmt_m, cblk_m, celse_m, ccases_m.
+  with ccases_m := Induction for ccases Sort Prop
+  with cparams_m := Induction for cparams Sort Prop.
+Combined Scheme cstmt_mutind from cstmt_m, cblk_m, celse_m, ccases_m, cparams_m.
 
 (* ---- unfolding equations of the mutual definitions (cbn does not refold them) ---- *)
 Section Eqs.
@@ -24,6 +25,7 @@ Variable buf : bstr.
 Variable dv : bstr -> option value.
 Variable cl : bstr -> (bstr -> option value) -> option bstr.
 Notation sout' := (sout ij mode pt dv cl). Notation bout' := (bout ij mode pt dv cl). Notation eout' := (eout ij mode pt dv cl). Notation kout' := (kout ij mode pt dv cl).
+Notation pout' := (pout ij mode pt dv cl).
 Lemma sout_raw env t : sout' env (SRaw t) = Some (t, env). Proof. reflexivity. Qed.
 Lemma sout_print env e ds : sout' env (SPrint e ds)
   = match ceval ij env e with
@@ -104,12 +106,19 @@ Lemma sout_css env e sfx : sout' env (SCss e sfx)
 Proof. reflexivity. Qed.
 Lemma sout_call env name d ps : sout' env (SCall name d ps)
   = match cdata_env ij dv env d with
-    | Some base => match cparams_env ij env ps base with
+    | Some base => match pout' env ps base with
                    | Some cenv => match cl name cenv with Some t => Some (t, env) | None => None end
                    | None => None
                    end
     | None => None
     end.
+Proof. reflexivity. Qed.
+Lemma pout_nil env acc : pout' env PNil acc = Some acc. Proof. reflexivity. Qed.
+Lemma pout_val env k e r acc : pout' env (PVal k e r) acc
+  = if is_ident k then match ceval ij env e with Some v => pout' env r (env_set acc k v) | None => None end else None.
+Proof. reflexivity. Qed.
+Lemma pout_cont env k body r acc : pout' env (PCont k body r) acc
+  = if is_ident k then match bout' env body with Some t => pout' env r (env_set acc k (VStr t)) | None => None end else None.
 Proof. reflexivity. Qed.
 Lemma bout_nil env : bout' env BNil = Some []. Proof. reflexivity. Qed.
 Lemma bout_cons env s r : bout' env (BCons s r)
@@ -162,7 +171,13 @@ Lemma sgen_forrange sc n x a1 rest body hasie ie : sgen' sc n (SForRange x a1 re
 Proof. reflexivity. Qed.
 Lemma sgen_css sc n e sfx : sgen' sc n (SCss e sfx) = (JSCss buf (match e with Some x => Some (cgen sc x) | None => None end) sfx, (sc, n)).
 Proof. reflexivity. Qed.
-Lemma sgen_call sc n name d ps : sgen' sc n (SCall name d ps) = (JSCall buf name (dgen sc d) (map (pgen sc) ps), (sc, n)).
+Lemma sgen_call sc n name d ps : sgen' sc n (SCall name d ps) = let '(jps, n1) := pgen mode sc n ps in (JSCall buf name (dgen sc d) jps, (sc, n1)).
+Proof. reflexivity. Qed.
+Lemma pgen_nil sc n : pgen mode sc n PNil = (JPNil, n). Proof. reflexivity. Qed.
+Lemma pgen_val sc n k e r : pgen mode sc n (PVal k e r) = let '(jr, n1) := pgen mode sc n r in (JPVal k (cgen sc e) jr, n1). Proof. reflexivity. Qed.
+Lemma pgen_cont sc n k body r : pgen mode sc n (PCont k body r)
+  = let '(jb, n1) := bgen mode (jsc_name t_param (n + 1)) ([] :: sc) (n + 1) body in
+    let '(jr, n2) := pgen mode sc n1 r in (JPCont k (jsc_name t_param (n + 1)) jb jr, n2).
 Proof. reflexivity. Qed.
 Lemma bgen_nil sc n : bgen' sc n BNil = (JBNil, n). Proof. reflexivity. Qed.
 Lemma bgen_cons sc n s r : bgen' sc n (BCons s r)
@@ -235,7 +250,9 @@ Proof. reflexivity. Qed.
 Lemma jk_exec_case env sv v vs b rest : jk_exec env sv (JKCase v vs b rest) = (h <- jk_hit env sv (v :: vs) ;; if h then jb_exec env b else jk_exec env sv rest).
 Proof. reflexivity. Qed.
 Lemma js_exec_call env buf name d ps : js_exec env (JSCall buf name d ps)
-  = (dv <- js_call_data env d ps ;; r <- jfn name dv (js_ij_arg env) ;; js_append_text env buf r).
+  = (env1 <- jp_exec jfn env ps ;; dv <- js_call_data env1 d (jp_args ps) ;; r <- jfn name dv (js_ij_arg env1) ;; js_append_text env1 buf r).
+Proof. reflexivity. Qed.
+Lemma jp_exec_cont env k g body r : jp_exec jfn env (JPCont k g body r) = (env1 <- jb_exec (jvset env g (JStr [])) body ;; jp_exec jfn env1 r).
 Proof. reflexivity. Qed.
 End ExecEqs.
 
@@ -464,7 +481,8 @@ Lemma sgen_mono_all mode :
   (forall s buf sc n j sc' n', sgen mode buf sc n s = (j, (sc', n')) -> n <= n')
   /\ (forall b buf sc n jb n', bgen mode buf sc n b = (jb, n') -> n <= n')
   /\ (forall e buf sc n jl n', egen mode buf sc n e = (jl, n') -> n <= n')
-  /\ (forall k buf sc n jk n', kgen mode buf sc n k = (jk, n') -> n <= n').
+  /\ (forall k buf sc n jk n', kgen mode buf sc n k = (jk, n') -> n <= n')
+  /\ (forall ps sc n jps n', pgen mode sc n ps = (jps, n') -> n <= n').
 Proof.
   apply cstmt_mutind.
   - intros t buf sc n j sc' n' H. inversion H. lia.
@@ -489,7 +507,7 @@ Proof.
     + destruct (bgen mode buf ([] :: sc) n1 ie) as [ji n2] eqn:E2. specialize (IHi _ _ _ _ _ E2). inversion H; subst. lia.
     + inversion H; subst. lia.
   - intros e sfx buf sc n j sc' n' H. inversion H. lia.
-  - intros name d ps buf sc n j sc' n' H. inversion H. lia.
+  - intros name d ps IHp buf sc n j sc' n' H. rewrite sgen_call in H. destruct (pgen mode sc n ps) as [jps n1] eqn:E1. inversion H; subst. eapply IHp; eauto.
   - intros buf sc n jb n' H. inversion H. lia.
   - intros s IHs r IHr buf sc n jb n' H. rewrite bgen_cons in H.
     destruct (sgen mode buf sc n s) as [j [sc1 n1]] eqn:E1. destruct (bgen mode buf sc1 n1 r) as [jr n2] eqn:E2. inversion H; subst.
@@ -504,6 +522,11 @@ Proof.
   - intros v vs b IHb rest IHr buf sc n jk n' H. rewrite kgen_case in H.
     destruct (bgen mode buf ([] :: sc) n b) as [jb n1] eqn:E1. destruct (kgen mode buf sc n1 rest) as [jr n2] eqn:E2. inversion H; subst.
     specialize (IHb _ _ _ _ _ E1). specialize (IHr _ _ _ _ _ E2). lia.
+  - intros sc n jps n' H. inversion H. lia.
+  - intros k e r IHr sc n jps n' H. rewrite pgen_val in H. destruct (pgen mode sc n r) as [jr n1] eqn:E1. inversion H; subst. eapply IHr; eauto.
+  - intros k body IHb r IHr sc n jps n' H. rewrite pgen_cont in H.
+    destruct (bgen mode (jsc_name t_param (n + 1)) ([] :: sc) (n + 1) body) as [jb n1] eqn:E1. destruct (pgen mode sc n1 r) as [jr n2] eqn:E2. inversion H; subst.
+    specialize (IHb _ _ _ _ _ E1). specialize (IHr _ _ _ _ E2). lia.
 Qed.
 
 (* the scope and the counter after a statement *)
@@ -524,7 +547,7 @@ Proof.
     destruct (match range_args (JENum 0) (JENum 1) (map (cgen sc) (a1 :: rest)) with Some t => t | None => (JENull, JENull, JENull) end) as [[ei el] es].
     destruct hasie; [destruct (bgen mode buf ([] :: sc) n1 ie) as [ji n2]|]; inversion H; auto.
   - inversion H; auto.
-  - inversion H; auto.
+  - rewrite sgen_call in H. destruct (pgen mode sc n ps) as [jps n1]. inversion H; auto.
 Qed.
 
 (* the names a statement binds are identifiers *)
@@ -547,7 +570,7 @@ Proof.
     destruct (match range_args (JENum 0) (JENum 1) (map (cgen sc) (a1 :: rest)) with Some t => t | None => (JENull, JENull, JENull) end) as [[ei el] es].
     destruct hasie; [destruct (bgen mode buf ([] :: sc) n1 ie) as [ji n2]|]; inversion H; auto.
   - inversion H; auto.
-  - inversion H; auto.
+  - rewrite sgen_call in H. destruct (pgen mode sc n cps) as [jps n1]. inversion H; auto.
 Qed.
 Lemma swf_binder lv s : swf lv s = true -> binder_ok s.
 Proof. destruct s; cbn [swf binder_ok]; auto; intro H; apply andb_prop in H; apply H. Qed.
@@ -705,6 +728,15 @@ Definition JP_k (k : ccases) : Prop := forall buf sc n env je old text sv jk n',
   ginv sc n buf -> prim_value sv = true -> kout ij mode go_print_text denv callee env sv k = Some text -> jinv buf sc env je old -> datarel denv (je_data je) ->
   kgen mode buf sc n k = (jk, n') ->
   exists je', jk_exec je (to_js sv) jk = Ok je' /\ assoc_s buf (je_vars je') = Some (JStr (old ++ text)) /\ frame buf n je je'.
+(* the parameters of a call: the content blocks run in order, each into a new variable param_<counter>; then the object
+   literal is evaluated -- value parameters by their expressions, content parameters by their variables -- and updates the
+   data object as the parameters update the callee's data *)
+Definition JP_p (ps : cparams) : Prop := forall buf sc n env je old base cenv m jps n',
+  ginv sc n buf -> pout ij mode go_print_text denv callee env ps base = Some cenv -> jinv buf sc env je old -> datarel denv (je_data je) ->
+  pgen mode sc n ps = (jps, n') -> datarel base (JObj m) ->
+  exists je' vs, jp_exec jfn je jps = Ok je' /\ frame buf n je je' /\ assoc_s buf (je_vars je') = Some (JStr old)
+    /\ js_eval_params je' (jp_args jps) = Ok vs
+    /\ datarel cenv (JObj (fold_left (fun acc kv => aset acc (fst kv) (snd kv)) vs m)).
 
 (* a block is translated and run under one more (empty) frame *)
 Lemma JP_block b : JP_b b -> forall buf sc n env je old text jb n',
@@ -984,26 +1016,12 @@ Qed.
 Lemma small_in a l v : small a = true -> small l = true -> (a <= v <= l \/ l <= v <= a)%Z -> small v = true.
 Proof. clear denv callee jfn. unfold small. intros Ha Hl H. apply Z.leb_le in Ha, Hl. apply Z.leb_le. lia. Qed.
 
-(* the parameters of a call: evaluated one by one, they update the data object as they update the callee's data *)
-Lemma js_params sc env je ps : env_rel sc ij env je -> forall base cenv m,
-  cparams_env ij env ps base = Some cenv -> datarel base (JObj m) ->
-  exists vs, js_eval_params je (map (pgen sc) ps) = Ok vs
-             /\ datarel cenv (JObj (fold_left (fun acc kv => aset acc (fst kv) (snd kv)) vs m)).
-Proof.
-  intro ER. induction ps as [|[k e] r IH]; intros base cenv m E DR; cbn [cparams_env map js_eval_params pgen fst snd] in *.
-  - inversion E; subst. exists []. split; [reflexivity|exact DR].
-  - destruct (is_ident k) eqn:Hk; [|discriminate]. destruct (ceval ij env e) as [v|] eqn:Ev; [|discriminate].
-    destruct (cgen_correct sc ij env je ER e v Ev) as [Hj Hcv]. rewrite Hj. cbn [bind].
-    destruct (IH (env_set base k v) cenv (aset m k (to_js v)) E (datarel_set base m k v DR Hcv Hk)) as (vs & Evs & D).
-    rewrite Evs. cbn [bind]. exists ((k, to_js v) :: vs). split; [reflexivity|]. cbn [fold_left fst snd]. exact D.
-Qed.
-
 (* the JavaScript function of a template returns the text the template writes, for every data object that holds the
    template's data and every opt_ijData that holds the injected data (if there is any) *)
 Hypothesis Hjcall : forall name cenv text jd ijv, callee name cenv = Some text -> datarel cenv jd ->
   (forall v, ij = Some v -> ijv = to_js v) -> jfn name jd ijv = Ok text.
 
-Theorem js_exec_all : (forall s, JP_s s) /\ (forall b, JP_b b) /\ (forall e, JP_e e) /\ (forall k, JP_k k).
+Theorem js_exec_all : (forall s, JP_s s) /\ (forall b, JP_b b) /\ (forall e, JP_e e) /\ (forall k, JP_k k) /\ (forall ps, JP_p ps).
 Proof.
   apply cstmt_mutind.
   - (* raw *) intros t buf sc n env je old text env' j sc' n' G E I DR Eg. rewrite sout_raw in E. rewrite sgen_raw in Eg. inversion E; subst. inversion Eg; subst.
@@ -1267,30 +1285,37 @@ Proof.
       eapply frame_comp; apply append_frame.
     + inversion E; subst. clear E. cbn [bind]. unfold js_append_text. rewrite Hb. eexists. split; [reflexivity|].
       split; [eapply jinv_append; eauto|apply append_frame].
-  - (* call *) intros name d ps buf sc n env je old text env' j sc' n' G E I DR Eg. rewrite sout_call in E. rewrite sgen_call in Eg. inversion Eg; subst. clear Eg.
+  - (* call *) intros name d ps IHp buf sc n env je old text env' j sc' n' G E I DR Eg. rewrite sout_call in E. rewrite sgen_call in Eg.
+    destruct (pgen mode sc n ps) as [jps n1] eqn:Ep0. inversion Eg; subst. clear Eg.
     destruct (cdata_env ij denv env d) as [base|] eqn:Ed; [|discriminate].
-    destruct (cparams_env ij env ps base) as [cenv|] eqn:Ep; [|discriminate].
+    destruct (pout ij mode go_print_text denv callee env ps base) as [cenv|] eqn:Ep; [|discriminate].
     destruct (callee name cenv) as [t|] eqn:Ec; [|discriminate]. inversion E; subst. clear E.
     pose proof I as [ER Hb].
-    assert (Hbase : exists jb, match dgen sc' d with JDEmpty => Ok (JObj []) | JDOpt => Ok (je_data je) | JDExpr e => js_eval je e end = Ok jb
-                               /\ datarel base jb).
+    (* the data object, whenever it is evaluated *)
+    assert (Hbase : exists m, datarel base (JObj m) /\ forall je1, frame buf n je je1 ->
+              match dgen sc' d with JDEmpty => Ok (JObj []) | JDOpt => Ok (je_data je1) | JDExpr e => js_eval je1 e end = Ok (JObj m)).
     { destruct d as [| |e]; cbn [cdata_env dgen] in *.
-      - inversion Ed; subst. exists (JObj []). split; [reflexivity|apply datarel_empty].
-      - inversion Ed; subst. exists (je_data je). split; [reflexivity|exact DR].
+      - inversion Ed; subst. exists []. split; [apply datarel_empty|reflexivity].
+      - inversion Ed; subst. destruct (datarel_obj _ _ DR) as (m & Hm). exists m. split; [rewrite <- Hm; exact DR|].
+        intros je1 [D1 _]. rewrite D1, Hm. reflexivity.
       - destruct (ceval ij env' e) as [[| | | | | | |lid m]|] eqn:Ev; try discriminate.
         destruct (forallb (fun kv => is_ident (fst kv)) m) eqn:Hkeys; [|discriminate]. inversion Ed; subst.
-        destruct (cgen_correct sc' ij env' je ER e _ Ev) as [Hj Hcv]. exists (to_js (VMap lid m)). split; [exact Hj|apply datarel_map; assumption]. }
-    destruct Hbase as (jb & Ejb & DRb). destruct (datarel_obj base jb DRb) as (m & ->).
-    destruct (js_params sc' env' je ps ER base cenv m Ep DRb) as (vs & Evs & DRc).
-    assert (Hdv : exists dvj, js_call_data je (dgen sc' d) (map (pgen sc') ps) = Ok dvj /\ datarel cenv dvj).
-    { unfold js_call_data. rewrite Ejb. cbn [bind]. destruct ps as [|p r].
-      - cbn [map]. cbn [cparams_env] in Ep. inversion Ep; subst. exists (JObj m). split; [reflexivity|exact DRb].
-      - cbn [map] in *. rewrite Evs. cbn [bind js_augment]. eexists. split; [reflexivity|exact DRc]. }
-    destruct Hdv as (dvj & Edv & DRd).
-    rewrite js_exec_call, Edv. cbn [bind].
-    rewrite (Hjcall name cenv _ dvj (js_ij_arg je) Ec DRd).
-    + cbn [bind]. unfold js_append_text. rewrite Hb. eexists. split; [reflexivity|]. split; [eapply jinv_append; eauto|apply append_frame].
-    + intros v Hv. unfold js_ij_arg. rewrite (er_ij _ _ _ _ ER v Hv). reflexivity.
+        exists (map (fun kv => (fst kv, to_js (snd kv))) m).
+        split; [exact (datarel_map lid m (proj2 (cgen_correct sc' ij env' je ER e _ Ev)) Hkeys)|].
+        intros je1 F1. exact (proj1 (cgen_correct sc' ij env' je1 (env_rel_frame buf sc' n env' je je1 G ER F1) e _ Ev)). }
+    destruct Hbase as (m & DRb & Hbe).
+    destruct (IHp buf sc' n env' je old base cenv m jps n' G Ep I DR Ep0 DRb) as (je1 & vs & X1 & F1 & Hb1 & Evs & DRc).
+    rewrite js_exec_call, X1. cbn [bind].
+    assert (Hdv : exists dvj, js_call_data je1 (dgen sc' d) (jp_args jps) = Ok dvj /\ datarel cenv dvj).
+    { unfold js_call_data. rewrite (Hbe je1 F1). cbn [bind]. destruct (jp_args jps) as [|p r] eqn:Ea.
+      - cbn [js_eval_params] in Evs. inversion Evs; subst. cbn [fold_left] in DRc. eexists; split; [reflexivity|exact DRc].
+      - rewrite Evs. cbn [bind js_augment]. eexists. split; [reflexivity|exact DRc]. }
+    destruct Hdv as (dvj & Edv & DRd). rewrite Edv. cbn [bind].
+    pose proof (env_rel_frame buf sc' n env' je je1 G ER F1) as ER1.
+    rewrite (Hjcall name cenv _ dvj (js_ij_arg je1) Ec DRd).
+    + cbn [bind]. unfold js_append_text. rewrite Hb1. eexists. split; [reflexivity|].
+      split; [exact (jinv_append buf sc' n env' je1 old _ G (conj ER1 Hb1))|eapply frame_comp; [exact F1|apply append_frame]].
+    + intros v Hv. unfold js_ij_arg. rewrite (er_ij _ _ _ _ ER1 v Hv). reflexivity.
   - (* BNil *) intros buf sc n env je old text jb n' G E I DR Eg. rewrite bout_nil in E. rewrite bgen_nil in Eg. inversion E; subst. inversion Eg; subst.
     exists je. rewrite app_nil_r. split; [reflexivity|]. split; [apply I|apply frame_refl].
   - (* BCons *) intros s IHs r IHr buf sc n env je old text jb n' G E I DR Eg. rewrite bout_cons in E. rewrite bgen_cons in Eg.
@@ -1337,5 +1362,55 @@ Proof.
     + exact (JP_block b IHb buf sc n env je old text jb n1 G E I DR E1).
     + destruct (IHr buf sc n1 env je old text sv jr n' (ginv_mono _ _ _ _ Hn1 G) Hp E I DR E2) as (je' & X & Hb' & F).
       exists je'. split; [exact X|]. split; [exact Hb'|]. eapply frame_trans; [exact Hn1|apply frame_refl|exact F].
+  - (* PNil *) intros buf sc n env je old base cenv m jps n' G E I DR Eg DRb. rewrite pout_nil in E. rewrite pgen_nil in Eg. inversion E; subst. inversion Eg; subst.
+    exists je, []. split; [reflexivity|]. split; [apply frame_refl|]. split; [apply I|]. split; [reflexivity|exact DRb].
+  - (* PVal *) intros k e r IHr buf sc n env je old base cenv m jps n' G E I DR Eg DRb.
+    rewrite pout_val in E. rewrite pgen_val in Eg. destruct (is_ident k) eqn:Hk; [|discriminate].
+    destruct (ceval ij env e) as [v|] eqn:Ev; [|discriminate].
+    destruct (pgen mode sc n r) as [jr n1] eqn:E1. inversion Eg; subst. clear Eg.
+    pose proof I as [ER Hb]. destruct (cgen_correct sc ij env je ER e v Ev) as [_ Hcv].
+    destruct (IHr buf sc n env je old (env_set base k v) cenv (aset m k (to_js v)) jr n' G E I DR E1 (datarel_set base m k v DRb Hcv Hk))
+      as (je' & vs & X & F & Hb' & Evs & Dc).
+    exists je', ((k, to_js v) :: vs). split; [exact X|]. split; [exact F|]. split; [exact Hb'|]. split; [|exact Dc].
+    cbn [jp_args js_eval_params]. rewrite (proj1 (cgen_correct sc ij env je' (env_rel_frame buf sc n env je je' G ER F) e v Ev)). cbn [bind].
+    rewrite Evs. reflexivity.
+  - (* PCont *) intros k body IHb r IHr buf sc n env je old base cenv m jps n' G E I DR Eg DRb.
+    rewrite pout_cont in E. rewrite pgen_cont in Eg. destruct (is_ident k) eqn:Hk; [|discriminate].
+    destruct (bout ij mode go_print_text denv callee env body) as [t|] eqn:Et; [|discriminate].
+    set (g := jsc_name t_param (n + 1)) in *.
+    destruct (bgen mode g ([] :: sc) (n + 1) body) as [jb n1] eqn:E1. destruct (pgen mode sc n1 r) as [jr n2] eqn:E2. inversion Eg; subst. clear Eg.
+    destruct I as [ER Hb]. rewrite jp_exec_cont.
+    set (je0 := jvset je g (JStr [])).
+    assert (Hbg : bstr_eqb buf g = false) by (apply bounded_fresh; apply G).
+    assert (F0 : frame buf n je je0).
+    { split; [reflexivity|]. intros g0 H0 _. cbn [je_vars je0 jvset]. apply assoc_s_aset_other. apply bounded_fresh. exact H0. }
+    assert (G' : ginv sc (n + 1) g).
+    { destruct G as [G0 G1 G2 G3 G4 G5]. constructor.
+      - exact G0.
+      - intros key Hkey. eapply bounded_mono; [|apply G1; exact Hkey]. lia.
+      - apply bounded_new.
+      - intros key Hkey. apply bounded_fresh. apply G1; exact Hkey.
+      - apply bounded_fresh. apply opt_ij_bounded.
+      - intro x. destruct (G5 x) as (A & B & _ & _). repeat split; try (eapply bounded_mono; [|eassumption]; lia); apply bounded_fresh; assumption. }
+    assert (I0 : jinv g sc env je0 []).
+    { split; [exact (env_rel_frame buf sc n env je je0 G ER F0)|]. exact (assoc_s_aset g (JStr []) (je_vars je)). }
+    destruct (JP_block body IHb g sc (n + 1) env je0 [] t jb n1 G' Et I0 DR E1) as (je1 & X1 & Hg1 & [D1 F1]).
+    rewrite X1. cbn [bind]. cbn [app] in Hg1.
+    assert (F : frame buf n je je1).
+    { split; [rewrite D1; reflexivity|]. intros g0 H0 Hb0. rewrite F1.
+      - cbn [je_vars je0 jvset]. apply assoc_s_aset_other. apply bounded_fresh. exact H0.
+      - eapply bounded_mono; [|exact H0]. lia.
+      - apply bounded_fresh. exact H0. }
+    assert (Hb1 : assoc_s buf (je_vars je1) = Some (JStr old)).
+    { rewrite F1; [|eapply bounded_mono; [|apply (gi_buf _ _ _ G)]; lia|exact Hbg]. cbn [je_vars je0 jvset]. rewrite assoc_s_aset_other by exact Hbg. exact Hb. }
+    pose proof (proj1 (proj2 (sgen_mono_all mode)) _ _ _ _ _ _ E1) as Hn1.
+    assert (DR1 : datarel denv (je_data je1)) by (rewrite D1; exact DR).
+    destruct (IHr buf sc n1 env je1 old (env_set base k (VStr t)) cenv (aset m k (JStr t)) jr n' (ginv_mono sc n n1 buf ltac:(lia) G) E
+                (conj (env_rel_frame buf sc n env je je1 G ER F) Hb1) DR1 E2 (datarel_set base m k (VStr t) DRb eq_refl Hk))
+      as (je' & vs & X2 & F2 & Hb2 & Evs & Dc).
+    exists je', ((k, JStr t) :: vs). split; [exact X2|]. split; [eapply frame_trans; [|exact F|exact F2]; lia|]. split; [exact Hb2|]. split; [|exact Dc].
+    cbn [jp_args js_eval_params js_eval].
+    rewrite (proj2 F2 g); [|eapply bounded_mono; [|apply bounded_new]; exact Hn1|rewrite bstr_eqb_sym; exact Hbg].
+    rewrite Hg1. cbn [bind]. rewrite Evs. reflexivity.
 Qed.
 End JsStmts.
